@@ -203,7 +203,7 @@ def stream_scn(fam, tag, kind, cprog, hprog, n, m, manual=False, ser=True, c=1, 
 
 def c02(tier, rng):
     from . import gen2
-    out = gen2.late_messages('C02') + gen2.paused_handler_backlog('C02') + gen2.random_programs('C02', 80 if tier == 'quick' else 2000, rng)
+    out = gen2.late_messages('C02') + gen2.paused_handler_backlog('C02') + gen2.random_programs('C02', 80 if tier == 'quick' else 2000, rng) + gen2.slow_reader('C02', tier)
     kinds = ['bidi', 'cs', 'ss']
     cprogs = ['sendall', 'pingpong', 'concurrent', 'earlyclose']
     hprogs = ['echo', 'burst', 'afterEOF']
